@@ -17,6 +17,8 @@ def regen_leaves():
     CmProps/C06tie.lean identify them with the model)"""
     from translate import leaves, parsersrc, api, convstr
     leaves.generate()
+    from translate import hexsrc
+    hexsrc.generate()           # CmGen/HexSrc.lean: the tuple entry of rgb_to_hsl as it reads now (CmProps/C06hsl.lean)
     convstr.generate()          # CmGen/ConvStr.lean: rgb_to_hex, rgbint_to_string (and the hsl/hsla/rgba converters) as they read now (CmProps/C06conv.lean)
     api.generate()              # CmGen/Api.lean: the result part of ColorPair.make_readable as it reads now (CmProps/C06api.lean)
     parsersrc.generate()        # CmGen/ParserSrc.lean: detect_color_format, format_color, the string branch of parse_color_to_rgb (CmProps/C06fmt.lean)
